@@ -34,12 +34,14 @@ def run_unit(unit, repo=REPO, rlimit=None, threads=8, canary=None, suffix='', ma
     os.makedirs(GEN, exist_ok=True)
     rl = rlimit or UNIT_RLIMIT.get(unit, 40)
     demoted = {}
+    dropped_fns = {}
     rnd = -1
-    while rnd + 1 < max_rounds + len(demoted):
+    while rnd + 1 < max_rounds + len(demoted) + len(dropped_fns):
         rnd += 1
         ug = UnitGen(repo, os.path.join(VERIF, 'units'), disabled=disabled)
         ug.canary = canary
         ug.force_assumed = set(demoted)
+        ug.force_drop = set(dropped_fns)
         try:
             g = ug.generate(unit)
         except ExtractError as e:
@@ -85,11 +87,18 @@ def run_unit(unit, repo=REPO, rlimit=None, threads=8, canary=None, suffix='', ma
         # signature and contract, leave its body unverified (reported as `demoted`), and verify the rest
         import re as _re
         culprits = set()
+        sig_culprits = set()
         for u_ in und:
             m_ = _re.search(r'\[outside-subset-in=([\w.<>:]+)\]$', u_)
             if u_.startswith('tool/compile error') and m_ and m_.group(1) in g.fns and g.fns[m_.group(1)]['mode'] == 'verify':
                 culprits.add(m_.group(1))
+            elif u_.startswith('tool/compile error') and m_ and m_.group(1) in g.fns:
+                sig_culprits.add(m_.group(1))   # the copied signature of an ASSUMED function does not compile here
         compile_errs = [u_ for u_ in und if u_.startswith('tool/compile error')]
+        if sig_culprits and len(sig_culprits) + len(dropped_fns) <= 3 and not hints:
+            for c_ in sig_culprits:
+                dropped_fns[c_] = [u_ for u_ in compile_errs if u_.endswith('[outside-subset-in=%s]' % c_)][0][:300]
+            continue
         if culprits and len(culprits) + len(demoted) <= 3 and all(_re.search(r'\[outside-subset-in=', u_) for u_ in compile_errs) and not hints:
             for c_ in culprits:
                 demoted[c_] = [u_ for u_ in compile_errs if u_.endswith('[outside-subset-in=%s]' % c_)][0][:400]
